@@ -29,6 +29,10 @@ func (c ClusterCounter) Count(reader io.Reader) (*ClusterCountResult, error) {
 		return nil, err
 	}
 	inputScanner := bufio.NewScanner(reader)
+	// A chunk whose sketch is in the dense representation (tens of thousands
+	// of addresses) is a line of several hundred kilobytes, far beyond the
+	// Scanner's default 64 KiB limit, at which Scan silently stops.
+	inputScanner.Buffer(make([]byte, 0, 64*1024), 16*1024*1024)
 	for inputScanner.Scan() {
 		inputLine := inputScanner.Bytes()
 		sinkInfo := SinkEntry{}
@@ -54,6 +58,9 @@ func (c ClusterCounter) Count(reader io.Reader) (*ClusterCountResult, error) {
 		if err != nil {
 			return nil, err
 		}
+	}
+	if err := inputScanner.Err(); err != nil {
+		return nil, err
 	}
 	result.Sum = counter.Count()
 	return &result, nil
